@@ -71,5 +71,13 @@ def crM (cr : α) (a b c d : Nat → α) (i j : Nat) : α :=
   cross a c i * cross b d j - cr * (cross a d i * cross b c j)
 
 
+/-- the two directions `a·I ± b·J` of `angle_bisectors` -/
+def bisectorR (a b : Gauss α) : Nat → Gauss α := fun k => a * circIG k + b * circJG k
+def bisectorS (a b : Gauss α) : Nat → Gauss α := fun k => a * circIG k - b * circJG k
+
+/-- the vertex `p = (0, 0, 1)` of the brackets -/
+def originG : Nat → Gauss α := fun k => match k with | 2 => 1 | _ => 0
+
+
 end
 end Geo
